@@ -6,21 +6,41 @@
      Normalised   the stored result is in normal form (top mantissa bit set, or canonical zero)
      Sticky       approx(a) \/ approx(b) => approx(result); values from floats are flagged approximate
      Honest       ~approx(result) => stored value = exact value of the ghost expression
-     OrdOK / AbsDiffEqOK / TestsOK   cmp, ==, abs_diff_eq, is_zero, is_one agree with the stored values
+     OrdOK / AbsDiffEqOK / TestsOK   cmp, partial_cmp, < <= > >=, ==, abs_diff_eq, is_zero, is_one agree with the stored values
      ViewOK       val_and_exp / val / exp present the stored value (sign included)
-     ToF64OK      f64::try_from(d) is within 10^-12 relative of the stored value, sign included
-     ComplexValueOK  complex_value() is within 10^-12 of the stored value relative to its largest coefficient
-     ExactPhaseOK exact_phase_and_sqrt2_pow answers Some(k, p) exactly for exact values of the form w^k sqrt2^p *)
+     ToF64OK      f64::try_from(d) is within 10^-12 relative of the stored value, sign included (and is Ok inside the range of doubles)
+     ComplexValueOK  complex_value() (TryFrom<&Scalar4>) AND the owned TryFrom<Scalar4> are within 10^-12 of the stored value
+                  relative to its largest coefficient, and neither fails inside the range of doubles
+     ExactPhaseOK exact_phase_and_sqrt2_pow answers Some(k, p) exactly for exact values of the form w^k sqrt2^p
+     VariantOK    a binary operation computed through any of its overloads (`form`: reference operands, += -= *= with owned
+                  or reference right-hand sides, Sum, Product; Dyadic: += -= *=) is bit for bit (value and flags) what the
+                  owned operator returns (`own`); `out` itself is judged by Normalised / Honest like every result
+     ApproxAccessorOK  the PUBLIC accessors agree with the raw flags: Scalar4::approx() = some coefficient is flagged,
+                  set_approx(f) sets exactly the flag of every coefficient (nothing else changes) and approx() then returns f;
+                  Dyadic::approx()/sign() = the raw flags.  A value whose flag was CLEARED by the caller is from then on
+                  treated as an exact constant (its ghost becomes the stored value)
+     AbsDiffEq4OK Scalar4's abs_diff_eq (epsilon 10^-10) is symmetric, TRUE when the exact values are within 2^-34 and FALSE when
+                  they are further apart than 2^-32 in a component (coefficients <= 4; see spec/Dyadic.tla for the band)
+   Constructors From<i64>, From<[i64;4]>, From<f64>, From<[f64;4]>, Default, minus_one, sqrt2 / one_over_sqrt2 / sqrt2_pow and
+   mul_one_plus_phase are value-producing operations judged by Normalised / Honest / FromF64Lossless / FloatIsApprox against their ghosts.
+   Display / Debug are executed and counted (stats.displays, display_panics): the property fixes no text format.
+   `extreme` histories draw their constants around 2^+-820, the edge of the range where doubles exist. *)
 EXTENDS TraceLib, Dyadic
 VARIABLES l, mach, dst, dgh, sst, sgh, viol, drift, stats
 vars == <<l, mach, dst, dgh, sst, sgh, viol, drift, stats>>
 ZeroD == [neg |-> FALSE, m |-> <<>>, e |-> 0, ap |-> FALSE]
 Init == l = 1 /\ mach = "none" /\ dst = <<>> /\ dgh = <<>> /\ sst = <<>> /\ sgh = <<>> /\ viol = <<>> /\ drift = <<>>
-        /\ stats = [histories |-> 0, dops |-> 0, sops |-> 0, nontrivial |-> 0, exact_results |-> 0, approx_results |-> 0]
+        /\ stats = [histories |-> 0, extreme_histories |-> 0, dops |-> 0, sops |-> 0, nontrivial |-> 0, exact_results |-> 0, approx_results |-> 0,
+                    variants |-> 0, accessor_ops |-> 0, conv_judged |-> 0, conv_out_of_range |-> 0, adeq4 |-> 0, adeq4_judged |-> 0,
+                    adeq4_true |-> 0, displays |-> 0, display_panics |-> 0]
 V(ok, name, op) == IF ok THEN <<>> ELSE <<<<l, name, op>>>>
+B2I(b) == IF b THEN 1 ELSE 0
 D(j) == [neg |-> j.neg, m |-> BNorm(j.m), e |-> j.e, ap |-> j.ap]
 IntX(j) == XNorm([neg |-> j.neg, m |-> j.m, e |-> 0])
 S4(js) == [i \in 1..4 |-> D(js[i])]
+\* an overload's result against the owned operator's, bit for bit (the raw records as logged)
+VariantOK(e) == Has(e, "own") => e.out = e.own
+IsVariant(e) == Has(e, "form") /\ e.form \notin {"own", "own_own"}
 
 \* phase n/d: exact when 4 % d = 0
 PhExact(ph) == 4 % ph[2] = 0
@@ -28,8 +48,10 @@ PhUnits(ph) == (((ph[1] * (4 \div ph[2])) % 8) + 8) % 8
 
 \* conversions are only required inside the range where doubles exist (the property excludes exponent overflow)
 InRange(v) == XIsZero(v) \/ (v.e + BBitLen(v.m) \in -900..900)
+\* the complex conversion also converts the difference / sum of two coefficients, which can be 2^-63 of them: a little more room below
+CInRange(v) == XIsZero(v) \/ (v.e + BBitLen(v.m) \in -890..900)
 DStep(e) ==
-  IF e.res = "panic" THEN
+  IF e.res = "panic" /\ e.op # "display" THEN
     viol' = Append(viol, <<l, "NoPanic", e.op>>) /\ stats' = [stats EXCEPT !.dops = @ + 1] /\ UNCHANGED <<dst, dgh>>
   ELSE
   CASE e.op = "new" ->
@@ -43,20 +65,36 @@ DStep(e) ==
          /\ viol' = V(Normalised(out), "Normalised", e.op) \o V(Val(out) = g, "FromF64Lossless", e.op) \o V(out.ap \/ XIsZero(g), "FloatIsApprox", e.op) \o viol
          /\ dst' = [dst EXCEPT ![e.r] = out] /\ dgh' = [dgh EXCEPT ![e.r] = g]
          /\ stats' = [stats EXCEPT !.dops = @ + 1, !.nontrivial = @ + 1, !.approx_results = @ + 1]
-    [] e.op \in {"add", "sub", "mul", "neg"} ->
+    [] e.op \in {"add", "sub", "mul", "neg", "abs"} ->
          LET out == D(e.out)
              a == dst[e.a]
-             b == IF e.op = "neg" THEN ZeroD ELSE dst[e.b]
+             b == IF e.op \in {"neg", "abs"} THEN ZeroD ELSE dst[e.b]
              g == CASE e.op = "add" -> XAdd(dgh[e.a], dgh[e.b]) [] e.op = "sub" -> XSub(dgh[e.a], dgh[e.b])
-                    [] e.op = "mul" -> XMul(dgh[e.a], dgh[e.b]) [] OTHER -> XNeg(dgh[e.a])
-         IN /\ viol' = V(Normalised(out), "Normalised", e.op) \o V(Honest(out, g), "Honest", e.op) \o viol
+                    [] e.op = "mul" -> XMul(dgh[e.a], dgh[e.b]) [] e.op = "abs" -> XAbs(dgh[e.a]) [] OTHER -> XNeg(dgh[e.a])
+             \* abs only clears the sign of the stored value
+             absok == e.op = "abs" => (Val(out) = XAbs(Val(a)) /\ out.ap = a.ap)
+         IN /\ viol' = V(Normalised(out), "Normalised", e.op) \o V(Honest(out, g), "Honest", e.op) \o V(VariantOK(e), "VariantOK", e.op)
+                       \o V(absok, "AbsOK", e.op) \o viol
             /\ drift' = IF Sticky(<<a, b>>, out) THEN drift ELSE Append(drift, <<l, "NotSticky", e.op>>)
             /\ dst' = [dst EXCEPT ![e.r] = out] /\ dgh' = [dgh EXCEPT ![e.r] = g]
             /\ stats' = [stats EXCEPT !.dops = @ + 1, !.nontrivial = @ + 1, !.exact_results = @ + (IF out.ap THEN 0 ELSE 1),
-                                      !.approx_results = @ + (IF out.ap THEN 1 ELSE 0)]
+                                      !.approx_results = @ + (IF out.ap THEN 1 ELSE 0), !.variants = @ + B2I(IsVariant(e))]
+    [] e.op = "set_approx" ->
+         LET out == D(e.out) IN
+         /\ viol' = V(out = [dst[e.a] EXCEPT !.ap = e.flag] /\ e.pub_ap = e.flag, "ApproxAccessorOK", e.op) \o viol
+         /\ dst' = [dst EXCEPT ![e.r] = out] /\ dgh' = [dgh EXCEPT ![e.r] = IF e.flag THEN dgh[e.a] ELSE Val(out)]
+         /\ stats' = [stats EXCEPT !.dops = @ + 1, !.accessor_ops = @ + 1, !.nontrivial = @ + 1]
+    [] e.op = "flags" ->
+         /\ viol' = V(e.approx = dst[e.a].ap /\ e.sign = dst[e.a].neg, "ApproxAccessorOK", e.op) \o viol
+         /\ stats' = [stats EXCEPT !.dops = @ + 1, !.accessor_ops = @ + 1] /\ UNCHANGED <<dst, dgh>>
+    [] e.op = "display" ->
+         /\ stats' = [stats EXCEPT !.dops = @ + 1, !.displays = @ + 1, !.display_panics = @ + B2I(e.res = "panic")]
+         /\ UNCHANGED <<dst, dgh, viol>>
     [] e.op = "cmp" ->
+         LET c == XCmp(Val(dst[e.a]), Val(dst[e.b])) IN
          /\ viol' = V(OrdOK(dst[e.a], dst[e.b], e.ret), "OrdOK", e.op)
-                    \o V(e.eq => XCmp(Val(dst[e.a]), Val(dst[e.b])) = 0, "EqOK", e.op) \o viol
+                    \o V(Has(e, "lt") => (e.partial = c /\ e.lt = (c < 0) /\ e.le = (c <= 0) /\ e.gt = (c > 0) /\ e.ge = (c >= 0)), "OrdOK", "partial_ord")
+                    \o V(e.eq => c = 0, "EqOK", e.op) \o viol
          /\ stats' = [stats EXCEPT !.dops = @ + 1] /\ UNCHANGED <<dst, dgh>>
     [] e.op = "abs_diff_eq" ->
          /\ viol' = V(AbsDiffEqOK(dst[e.a], dst[e.b], e.ret), "AbsDiffEqOK", e.op) \o viol
@@ -66,8 +104,9 @@ DStep(e) ==
          /\ stats' = [stats EXCEPT !.dops = @ + 1] /\ UNCHANGED <<dst, dgh>>
     [] e.op = "to_f64" ->
          LET v == Val(dst[e.a]) IN
-         /\ viol' = (IF e.res = "ok" /\ InRange(v) THEN V(e.f.fin /\ CloseTo(FVal(e.f), v, v), "ToF64OK", e.op) ELSE <<>>) \o viol
-         /\ stats' = [stats EXCEPT !.dops = @ + 1, !.nontrivial = @ + 1] /\ UNCHANGED <<dst, dgh>>
+         /\ viol' = (IF InRange(v) THEN V(e.res = "ok" /\ e.f.fin /\ CloseTo(FVal(e.f), v, v), "ToF64OK", e.op) ELSE <<>>) \o viol
+         /\ stats' = [stats EXCEPT !.dops = @ + 1, !.nontrivial = @ + 1, !.conv_judged = @ + B2I(InRange(v)), !.conv_out_of_range = @ + B2I(~InRange(v))]
+         /\ UNCHANGED <<dst, dgh>>
     [] e.op = "val_and_exp" ->
          \* the signed view is only defined when the odd part of the mantissa fits 63 bits
          LET v == Val(dst[e.a])
@@ -76,45 +115,65 @@ DStep(e) ==
          /\ drift' = IF fits THEN drift ELSE Append(drift, <<l, "ViewOfFullWidthMantissa">>)
          /\ stats' = [stats EXCEPT !.dops = @ + 1] /\ UNCHANGED <<dst, dgh>>
 
+\* operations of the Scalar4 machine that produce a value for register e.r
+SValueOps == {"new", "from_phase", "real", "complex", "add", "sub", "mul", "conj", "mul_sqrt2_pow", "mul_phase", "one_plus_phase",
+              "from_i64", "from_i64x4", "from_f64", "from_f64x4", "default", "minus_one", "sqrt2_pow", "sum", "product", "mul_one_plus_phase"}
 SStep(e) ==
-  IF e.res = "panic" THEN
+  IF e.res = "panic" /\ e.op \notin {"complex_value", "abs_diff_eq4", "display"} THEN
     viol' = Append(viol, <<l, "NoPanic", e.op>>) /\ stats' = [stats EXCEPT !.sops = @ + 1] /\ UNCHANGED <<sst, sgh>>
   ELSE
-  CASE e.op \in {"new", "from_phase", "real", "complex", "add", "sub", "mul", "conj", "mul_sqrt2_pow", "mul_phase", "one_plus_phase"} ->
+  CASE e.op \in SValueOps ->
          LET out == S4(e.out)
-             exactLeaf == e.op = "new" \/ (e.op \in {"from_phase", "one_plus_phase"} /\ PhExact(e.ph))
-             floatLeaf == e.op \in {"real", "complex"} \/ (e.op \in {"from_phase", "one_plus_phase"} /\ ~PhExact(e.ph))
+             floatLeaf == e.op \in {"real", "complex", "from_f64", "from_f64x4"} \/ (e.op \in {"from_phase", "one_plus_phase"} /\ ~PhExact(e.ph))
              g == CASE e.op = "new" -> [i \in 1..4 |-> XShift(IntX(e.coeffs[i]), e.pow)]
+                    [] e.op = "from_i64" -> <<IntX(e.coeffs[1]), XZero, XZero, XZero>>
+                    [] e.op = "from_i64x4" -> [i \in 1..4 |-> IntX(e.coeffs[i])]
+                    [] e.op = "default" -> S4Zero
+                    [] e.op = "minus_one" -> S4Omega(4)
+                    [] e.op = "sqrt2_pow" -> S4Sqrt2Pow(e.p)
                     [] e.op = "from_phase" -> IF PhExact(e.ph) THEN S4Omega(PhUnits(e.ph)) ELSE S4Vals(out)
                     [] e.op = "one_plus_phase" -> IF PhExact(e.ph) THEN S4Add(S4One, S4Omega(PhUnits(e.ph))) ELSE S4Vals(out)
-                    [] e.op = "real" -> <<FVal(e.f[1]), XZero, XZero, XZero>>
+                    [] e.op \in {"real", "from_f64"} -> <<FVal(e.f[1]), XZero, XZero, XZero>>
                     [] e.op = "complex" -> <<FVal(e.f[1]), XZero, FVal(e.f[2]), XZero>>
+                    [] e.op = "from_f64x4" -> [i \in 1..4 |-> FVal(e.f[i])]
                     [] e.op = "add" -> S4Add(sgh[e.a], sgh[e.b])
                     [] e.op = "sub" -> S4Sub(sgh[e.a], sgh[e.b])
                     [] e.op = "mul" -> S4Mul(sgh[e.a], sgh[e.b])
+                    [] e.op = "sum" -> S4SumSeq([k \in 1..Len(e.ids) |-> sgh[e.ids[k]]])
+                    [] e.op = "product" -> S4ProdSeq([k \in 1..Len(e.ids) |-> sgh[e.ids[k]]])
                     [] e.op = "conj" -> S4Conj(sgh[e.a])
                     [] e.op = "mul_sqrt2_pow" -> S4Mul(sgh[e.a], S4Sqrt2Pow(e.p))
                     [] e.op = "mul_phase" -> IF PhExact(e.ph) THEN S4Mul(sgh[e.a], S4Omega(PhUnits(e.ph))) ELSE S4Vals(out)
+                    [] e.op = "mul_one_plus_phase" -> IF PhExact(e.ph) THEN S4Mul(sgh[e.a], S4Add(S4One, S4Omega(PhUnits(e.ph)))) ELSE S4Vals(out)
              ins == CASE e.op \in {"add", "sub", "mul"} -> <<sst[e.a], sst[e.b]>>
-                      [] e.op \in {"conj", "mul_sqrt2_pow", "mul_phase"} -> <<sst[e.a]>>
+                      [] e.op \in {"conj", "mul_sqrt2_pow", "mul_phase", "mul_one_plus_phase"} -> <<sst[e.a]>>
+                      [] e.op \in {"sum", "product"} -> [k \in 1..Len(e.ids) |-> sst[e.ids[k]]]
                       [] OTHER -> <<>>
              sticky == (\E k \in 1..Len(ins) : S4Approx(ins[k])) => S4Approx(out)
              \* a factor that is not a multiple of pi/4 is a float: the result must be flagged
-             floaty == (e.op = "mul_phase" /\ ~PhExact(e.ph) /\ ~S4IsZero(S4Vals(sst[e.a]))) => S4Approx(out)
+             floaty == (e.op \in {"mul_phase", "mul_one_plus_phase"} /\ ~PhExact(e.ph) /\ ~S4IsZero(S4Vals(sst[e.a]))) => S4Approx(out)
              honest == ~S4Approx(out) => S4Vals(out) = g
          IN /\ viol' = V(\A i \in 1..4 : Normalised(out[i]), "Normalised", e.op) \o V(floaty, "FloatFactorIsApprox", e.op)
                        \o V(honest, "Honest", e.op) \o V(floatLeaf => (S4Approx(out) \/ S4IsZero(S4Vals(out))), "FloatIsApprox", e.op)
-                       \o V(e.op \notin {"real", "complex"} \/ S4Vals(out) = g, "FromF64Lossless", e.op) \o viol
+                       \o V(e.op \notin {"real", "complex", "from_f64", "from_f64x4"} \/ S4Vals(out) = g, "FromF64Lossless", e.op)
+                       \o V(VariantOK(e), "VariantOK", e.op) \o viol
             /\ drift' = IF sticky THEN drift ELSE Append(drift, <<l, "NotSticky", e.op>>)
             /\ sst' = [sst EXCEPT ![e.r] = out] /\ sgh' = [sgh EXCEPT ![e.r] = g]
             /\ stats' = [stats EXCEPT !.sops = @ + 1, !.nontrivial = @ + 1, !.exact_results = @ + (IF S4Approx(out) THEN 0 ELSE 1),
-                                      !.approx_results = @ + (IF S4Approx(out) THEN 1 ELSE 0)]
+                                      !.approx_results = @ + (IF S4Approx(out) THEN 1 ELSE 0),
+                                      !.variants = @ + B2I(IsVariant(e) \/ e.op \in {"sum", "product"})]
+    [] e.op = "set_approx" ->
+         LET out == S4(e.out) IN
+         /\ viol' = V(out = [i \in 1..4 |-> [sst[e.a][i] EXCEPT !.ap = e.flag]] /\ e.pub_ap = e.flag, "ApproxAccessorOK", e.op) \o viol
+         /\ sst' = [sst EXCEPT ![e.r] = out] /\ sgh' = [sgh EXCEPT ![e.r] = IF e.flag THEN sgh[e.a] ELSE S4Vals(out)]
+         /\ stats' = [stats EXCEPT !.sops = @ + 1, !.accessor_ops = @ + 1, !.nontrivial = @ + 1]
     [] e.op = "tests" ->
          LET va == S4Vals(sst[e.a])  vb == S4Vals(sst[e.b]) IN
          /\ viol' = V(e.is_zero = S4IsZero(va), "TestsOK", "is_zero")
                     \o V(e.is_one => va = S4One, "TestsOK", "is_one") \o V((va = S4One /\ ~S4Approx(sst[e.a])) => e.is_one, "TestsOK", "is_one_exact")
-                    \o V(e.eq => va = vb, "TestsOK", "eq") \o V((va = vb /\ ~S4Approx(sst[e.a]) /\ ~S4Approx(sst[e.b])) => e.eq, "TestsOK", "eq_exact") \o viol
-         /\ stats' = [stats EXCEPT !.sops = @ + 1] /\ UNCHANGED <<sst, sgh>>
+                    \o V(e.eq => va = vb, "TestsOK", "eq") \o V((va = vb /\ ~S4Approx(sst[e.a]) /\ ~S4Approx(sst[e.b])) => e.eq, "TestsOK", "eq_exact")
+                    \o V(Has(e, "approx") => e.approx = S4Approx(sst[e.a]), "ApproxAccessorOK", "approx") \o viol
+         /\ stats' = [stats EXCEPT !.sops = @ + 1, !.accessor_ops = @ + B2I(Has(e, "approx"))] /\ UNCHANGED <<sst, sgh>>
     [] e.op = "exact_phase" ->
          LET s == sst[e.a]
              want == S4ExactPhasePow(S4Vals(s)) IN
@@ -122,22 +181,40 @@ SStep(e) ==
          /\ viol' = V((~S4Approx(s) => (e.ret = "some") = want[1]) /\ (e.ret = "some" => (want[1] /\ e.whole /\ e.kk = want[2] /\ e.pp = want[3])), "ExactPhaseOK", e.op) \o viol
          /\ stats' = [stats EXCEPT !.sops = @ + 1, !.nontrivial = @ + 1] /\ UNCHANGED <<sst, sgh>>
     [] e.op = "complex_value" ->
-         /\ viol' = (IF \A i \in 1..4 : InRange(Val(sst[e.a][i]))
-                     THEN V(e.re.fin /\ e.im.fin /\ ComplexValueOK(FVal(e.re), FVal(e.im), sst[e.a]), "ComplexValueOK", e.op)
-                          \o V(e.roundtrip, "FloatRoundTrip", e.op)
+         LET inr == \A i \in 1..4 : CInRange(Val(sst[e.a][i]))
+             own == Has(e, "owned") IN
+         \* inside the range of doubles neither conversion may fail (complex_value() panics on the error the TryFrom impls return)
+         /\ viol' = (IF inr
+                     THEN V(e.res = "ok" /\ e.re.fin /\ e.im.fin /\ ComplexValueOK(FVal(e.re), FVal(e.im), sst[e.a]), "ComplexValueOK", e.op)
+                          \o V(e.res = "ok" => e.roundtrip, "FloatRoundTrip", e.op)
+                          \o V(own => (e.owned = "ok" /\ e.re2.fin /\ e.im2.fin /\ ComplexValueOK(FVal(e.re2), FVal(e.im2), sst[e.a])), "ComplexValueOK", "owned_try_from")
                      ELSE <<>>) \o viol
-         /\ stats' = [stats EXCEPT !.sops = @ + 1, !.nontrivial = @ + 1] /\ UNCHANGED <<sst, sgh>>
+         /\ drift' = IF own /\ e.res = "ok" /\ e.owned = "ok" /\ (e.re # e.re2 \/ e.im # e.im2) THEN Append(drift, <<l, "OwnedConversionDiffers">>) ELSE drift
+         /\ stats' = [stats EXCEPT !.sops = @ + 1, !.nontrivial = @ + 1, !.conv_judged = @ + B2I(inr), !.conv_out_of_range = @ + B2I(~inr)]
+         /\ UNCHANGED <<sst, sgh>>
+    [] e.op = "abs_diff_eq4" ->
+         LET x == S4(e.x)  y == S4(e.y)
+             vx == S4Vals(x)  vy == S4Vals(y)
+             judged == AbsDiffEq4Judged(vx, vy) IN
+         \* small operands are far inside the range of doubles: no panic, and the answer is determined outside the band
+         /\ viol' = (IF judged THEN V(e.res = "ok", "NoPanic", e.op) \o V(e.res = "ok" => AbsDiffEq4OK(vx, vy, e.ret, e.rev), "AbsDiffEq4OK", e.op) ELSE <<>>) \o viol
+         /\ stats' = [stats EXCEPT !.sops = @ + 1, !.adeq4 = @ + 1, !.adeq4_judged = @ + B2I(judged), !.adeq4_true = @ + B2I(e.res = "ok" /\ e.ret),
+                                   !.nontrivial = @ + B2I(judged)]
+         /\ UNCHANGED <<sst, sgh, drift>>
+    [] e.op = "display" ->
+         /\ stats' = [stats EXCEPT !.sops = @ + 1, !.displays = @ + 1, !.display_panics = @ + B2I(e.res = "panic")]
+         /\ UNCHANGED <<sst, sgh, viol>>
 
 Step(e) ==
   CASE e.k = "begin" ->
          /\ mach' = e.machine
          /\ dst' = [i \in 1..e.regs |-> ZeroD] /\ dgh' = [i \in 1..e.regs |-> XZero]
          /\ sst' = [i \in 1..e.regs |-> <<ZeroD, ZeroD, ZeroD, ZeroD>>] /\ sgh' = [i \in 1..e.regs |-> S4Zero]
-         /\ stats' = [stats EXCEPT !.histories = @ + 1] /\ UNCHANGED <<viol, drift>>
+         /\ stats' = [stats EXCEPT !.histories = @ + 1, !.extreme_histories = @ + B2I(Has(e, "extreme") /\ e.extreme # 0)] /\ UNCHANGED <<viol, drift>>
     [] e.k = "d" -> DStep(e) /\ UNCHANGED <<mach, sst, sgh>>
-                    /\ ((e.res # "panic" /\ e.op \in {"val_and_exp", "add", "sub", "mul", "neg"}) \/ UNCHANGED drift)
+                    /\ ((e.res # "panic" /\ e.op \in {"val_and_exp", "add", "sub", "mul", "neg", "abs"}) \/ UNCHANGED drift)
     [] e.k = "s" -> SStep(e) /\ UNCHANGED <<mach, dst, dgh>>
-                    /\ ((e.res # "panic" /\ e.op \in {"new", "from_phase", "real", "complex", "add", "sub", "mul", "conj", "mul_sqrt2_pow", "mul_phase", "one_plus_phase"}) \/ UNCHANGED drift)
+                    /\ ((e.op = "complex_value" \/ (e.res # "panic" /\ e.op \in SValueOps)) \/ UNCHANGED drift)
 Next == \/ /\ l <= NLines /\ Step(Rec[l]) /\ l' = l + 1
         \/ /\ l = NLines + 1 /\ Report(l, viol, drift, stats) /\ l' = l + 1
            /\ UNCHANGED <<mach, dst, dgh, sst, sgh, viol, drift, stats>>
